@@ -32,7 +32,16 @@ def run_property(prop, repo_root, tier="quick", prog=None):
     mod = importlib.import_module("sa.props." + prop)
     prog = prog or Program(repo_root)
     ctx = report.Ctx(prop, prog, tier)
-    mod.run(prog, ctx)
+    from . import statecheck
+    statecheck.run(prog, ctx, prop)          # generic state-leak rules over the property's scope classes (S1, S2)
+    try:
+        mod.run(prog, ctx)
+    except AnalysisError as e:
+        # a violation that was already established stands, whatever else could not be evaluated: the construct a later rule is
+        # anchored in may be gone BECAUSE of the change that broke the property (a cache moved into a default argument, ...)
+        if not any(i.status == "violation" for i in ctx.instances):
+            raise
+        ctx.note("engine", "analysis-incomplete", "", "rules after this point were not evaluated: %s" % e)
     return ctx, mod
 
 
